@@ -244,9 +244,15 @@ def history(ctx, rng):
             lines.append(f"{RN.to_text(n)} 300 IN {dns.rdatatype.to_text(t)} {rd_for(t, tagn).to_text()}")
         ref.add(fold(n), t)
     text = "\n".join(lines) + "\n"
+    # the origin is either given to the loader or learned from a $ORIGIN directive while loading
+    learned = rng.random() < 0.3
+    if learned:
+        text = "$ORIGIN " + RN.to_text(ORIGIN) + "\n" + text
+        tag += ":origin-from-directive"
+        ctx.count("mon.origin_learned_while_loading")
     steps.append(("load", text))
     try:
-        z = dns.zone.from_text(text, origin=origin, relativize=relativize, zone_factory=dns.btreezone.Zone)
+        z = dns.zone.from_text(text, origin=None if learned else origin, relativize=relativize, zone_factory=dns.btreezone.Zone)
     except Exception as e:
         ctx.violation(f"initial-load-raised:{tag}:" + core.exc_sig(e), f"{e!r}", case)
         return
